@@ -66,8 +66,28 @@ def spec_of(gens, cid):
 def decide(ctx, prop, rows, gens):
     st = {"evaluations": 0, "agree_model": 0, "agree_ref": 0, "unmodelled": 0, "kinds": {}, "distinct": set(), "samples": []}
     viol, corr, need_conf = [], [], []
+    kf = core.known_findings()
+    kf_entry = next((e for e in kf.get("open", []) if e["id"] == "KF-C06-embeddedAddl" and (e.get("property") == prop or prop in e.get("also", []))), None)
+    st["known_finding_hits"] = {}
     for r in rows:
         m = r["model"]
+        in_kf = bool(m) and any("KF-C06-embeddedAddl" in x for x in m)
+        if in_kf:
+            # inside the recorded class: the witness cases must still fail exactly as recorded
+            if not kf_entry:
+                viol.append(r)
+                continue
+            exp = kf_entry.get("expected_observations", {}).get(r["id"])
+            o = r["impl"]
+            obs = re.sub(r"enc=\w+ ", "", o).split(" dump=")[0].split(" msg=")[0]
+            holds = ("valid=true" in o and "dup=false" in o and " rt=equal" in o) if r["op"] == "jsonenc" else o.startswith("dec=ok")
+            if exp is not None and obs != exp and not holds:
+                r2 = dict(r)
+                r2["model"] = ["recorded: " + exp, "observed: " + obs]
+                viol.append(r2)
+            elif not holds or exp is None:
+                st["known_finding_hits"]["KF-C06-embeddedAddl"] = st["known_finding_hits"].get("KF-C06-embeddedAddl", 0) + 1
+            continue
         if not m or m[0].startswith("unmodelled") or m[0] == "no-model":
             st["unmodelled"] += 1
             continue
@@ -93,12 +113,33 @@ def decide(ctx, prop, rows, gens):
             kind = r["type"][:3]
             st["kinds"][kind] = st["kinds"].get(kind, 0) + 1
             st["distinct"].add((r["id"].split("#")[0], r["type"], mc))
+        elif r["op"] == "jsondec" and prop == "C07":
+            # decode-then-encode (an echo handler, a forwarding client): what comes out must conform too
+            io = o.split(" msg=")[0]
+            if not io.startswith("dec=ok") or not m[0].startswith("dec=ok"):
+                continue
+            st["evaluations"] += 1
+            re_i = re.search(r"reenc=(\w*)", io)
+            re_m = re.search(r"reenc=(\w*)", m[0])
+            okm = bool(re_i) and bool(re_m) and re_i.group(1) == re_m.group(1)
+            okr = okm and m[1].endswith("reencConforms=true")
+            if not okm and re_i:
+                r2 = dict(r)
+                r2["impl"] = "canon=" + re_i.group(1)
+                need_conf.append(r2)
+                continue
+            st["kinds"]["reencode"] = st["kinds"].get("reencode", 0) + 1
+            st["distinct"].add((r["id"].split("#")[0], r["type"], r["case"][4]))
         elif r["op"] == "jsondec" and prop == "C08":
             st["evaluations"] += 1
             fault = bytes.fromhex(r["case"][3]).decode()
             io = o.split(" msg=")[0]
             okm = io == m[0]
-            rm = re.match(r"R:conforms=(\w+) expect=(\w*)", m[1])
+            rm = re.match(r"R:conforms=(\w+) expect=(\w*)", m[1]) if len(m) > 1 else None
+            if not rm:
+                st["unmodelled"] += 1
+                st["evaluations"] -= 1
+                continue
             conf = rm.group(1) == "true"
             expect = rm.group(2)
             if fault == "valid":
@@ -205,6 +246,9 @@ def check(ctx, prop, modules, theorems, rule, explanation, assumptions, level="p
     if res:
         rows, gens, meta = res
         st = decide(ctx, prop, rows, gens)
+        for k, n in st.get("known_finding_hits", {}).items():
+            e = [e for e in core.known_findings()["open"] if e["id"] == k][0]
+            ctx.known.append("%s %s (%d witness / class inputs behaved as recorded)" % (k, e["what"], n))
         for g in gens:
             k = g[1] if not (len(g) > 3 and g[3]) else "broken"
             gout[k] = gout.get(k, 0) + 1
